@@ -8,7 +8,11 @@
 
 use crate::commands::ExtractorCmd;
 use crate::{utils, Metainfo};
+#[cfg(rdest_verif)]
+use crate::verif::fs::{self, File};
+#[cfg(not(rdest_verif))]
 use std::fs;
+#[cfg(not(rdest_verif))]
 use std::fs::File;
 use std::io::{BufReader, BufWriter, Read, Seek, Write};
 use tokio::sync::mpsc;
